@@ -113,9 +113,39 @@ def run_case(case):
         s = new_sampler()
         main_s, rival_s = s, None
         prev_rows, prev_cols = [], None
+        if case.get("init_rows") and not fixed:
+            # the first sampler starts from a table handed to its constructor
+            # (held in memory: there is no file yet)
+            import pandas as pd
+            recs = []
+            for i_ in range(case["init_rows"]):
+                kw_ = {"n": A[i_ % len(A)], "k": Bv[i_ % len(Bv)]}
+                row_ = dict(kw_, **consts)
+                full_kw = dict(kw_, **consts)
+                for j_, nm_ in enumerate(("out", "E")):
+                    row_[nm_] = float("nan") if labelled.undefined_at(
+                        spec, full_kw) else labelled.var_value(full_kw, j_, ())
+                recs.append(row_)
+            init_df = pd.DataFrame(recs)
+            r0 = x.Runner(labelled.make_fn(spec), ("out", "E"),
+                          constants=consts or None)
+            s = main_s = x.Sampler(
+                r0, data_name=data_name, engine=engine, full_df=init_df,
+                default_combos={"n": list(A),
+                                "k": scripted(Bv, "b") if b_callable
+                                else list(Bv)})
+            prev_cols = sorted(init_df.columns)
+            prev_rows = rows_of(init_df, prev_cols)
+        mem_only = bool(case.get("init_rows")) and not fixed
         for k, op in enumerate(case["ops"]):
             o = op["op"]
             tag = f"run{k}:{o}"
+            if mem_only:
+                # until the first run has written the file, the table handed
+                # to the constructor lives in that one object only
+                if o == "session":
+                    continue
+                op = dict(op, rival=False)
             if o != "session" and op.get("rival") and prev_cols is not None:
                 # two long-lived samplers take turns on the same file
                 if rival_s is None:
@@ -227,6 +257,7 @@ def run_case(case):
                             f"{rows_of(on_disk, cols)!r:.300}, full_df "
                             f"{rows_of(full, cols)!r:.300}")
             prev_rows, prev_cols = rows_of(full, cols), cols
+            mem_only = False
     runs = sum(1 for op in case["ops"] if op["op"] != "session")
     return {"nontrivial": runs >= 2 and (sessions > 0 or crop_runs > 0),
             "classes": [f"engine={engine}",
@@ -235,6 +266,75 @@ def run_case(case):
                         "crop-run" if crop_runs else "direct-only",
                         "new-session" if sessions else "one-session"],
             "notes": {"runs": runs}}
+
+
+def tuple_value(n, k):
+    m = models.kw_number({"n": n, "k": k}, salt=21)
+    return tuple(float((m >> (8 * i)) % 251) for i in range(m % 3))
+
+
+def tuple_fn(n, k):
+    """ONE output whose value is a tuple of varying length (0, 1 or 2) -
+    divisors found, roots, a shape ..."""
+    models.LOG.append({"n": n, "k": k})
+    return tuple_value(n, k)
+
+
+def run_tuple(case):
+    x = xyz()
+    A, Bv = case["a"], case["b"]
+    with core.scratch("xv-c15t-") as root:
+        data_name = os.path.join(root, "t.pkl")
+        np.random.seed(case["np_seed"])
+        s = x.Sampler(x.Runner(tuple_fn, "found"), data_name=data_name,
+                      default_combos={"n": list(A), "k": list(Bv)})
+        total = 0
+        lens = set()
+        for k_, op in enumerate(case["ops"]):
+            n = op["n"]
+            with under_test(f"run{k_}:{op['op']}"):
+                if op["op"] == "sample":
+                    s.sample_combos(n, verbosity=0)
+                else:
+                    crop = s.Crop(name="c15t", parent_dir=root,
+                                  batchsize=op.get("bs", 2))
+                    crop.sow_samples(n, verbosity=0)
+                    crop.grow_missing()
+                    crop.reap()
+                full = s.full_df
+            total += n
+            require(len(full) == total, "row-count",
+                    f"run{k_}: {len(full)} rows, expected {total}")
+            for i in range(len(full)):
+                r = full.iloc[i]
+                want = tuple_value(models.plain(r["n"]), r["k"])
+                got = r["found"]
+                lens.add(len(want))
+                require(isinstance(got, tuple) and got == want,
+                        "row-mispaired",
+                        f"run{k_}: row n={r['n']!r} k={r['k']!r} holds "
+                        f"found={got!r}; the function returns {want!r} there")
+            with under_test("load_df"):
+                disk = x.load_df(data_name)
+            require(len(disk) == total and
+                    [tuple(v) if isinstance(v, tuple) else v
+                     for v in disk["found"]] == list(full["found"]),
+                    "disk-differs-from-memory", f"run{k_}")
+    return {"nontrivial": 1 in lens and len(lens) > 1,
+            "classes": ["tuple-valued-output"]}
+
+
+@st.composite
+def tuple_strategy(draw):
+    op = st.fixed_dictionaries({"op": st.sampled_from(["sample", "crop"]),
+                                "n": st.integers(1, 6),
+                                "bs": st.integers(1, 3)})
+    return {"a": draw(st.lists(st.integers(0, 30), min_size=2, max_size=5,
+                               unique=True)),
+            "b": draw(st.lists(st.sampled_from(["p", "q", "r"]), min_size=1,
+                               max_size=3, unique=True)),
+            "np_seed": draw(st.integers(0, 2**31)),
+            "ops": draw(st.lists(op, min_size=1, max_size=4))}
 
 
 def run_n0(case):
@@ -289,6 +389,7 @@ def strategy(draw):
             "constants": draw(st.sampled_from([{}, {"p": 3}, {"q": "u"}])),
             "engine": draw(st.sampled_from(["pickle", "csv"])),
             "nan_mod": draw(st.sampled_from([None, None, 2, 3])),
+            "init_rows": draw(st.sampled_from([0, 0, 0, 2, 3])),
             "compress": draw(st.sampled_from([None, None, None, ".gz",
                                               ".bz2"])),
             "fixed": draw(st.sampled_from([None, None, None, None, "none",
@@ -299,5 +400,7 @@ def strategy(draw):
 PHASES = [
     Phase("histories", run_case, strategy=strategy,
           examples={"quick": 1600, "thorough": 60000}),
+    Phase("tuple-output", run_tuple, strategy=tuple_strategy,
+          examples={"quick": 200, "thorough": 5000}),
     Phase("n0", run_n0, enumerate=lambda tier, seed: [], tiers=()),
 ]
